@@ -1,6 +1,7 @@
 package workers
 
 import (
+	randv2 "math/rand/v2"
 	"bytes"
 	"fmt"
 	"io"
@@ -54,6 +55,19 @@ func c19Jitter(stats *c19Stats, seq *atomic.Uint64, trace *[]byte, tmu *sync.Mut
 	}
 }
 
+// c19BareJitter perturbs without touching anything shared (the runtime's per-thread generator).
+func c19BareJitter(site string) {
+	switch n := randv2.Uint32(); n % 7 {
+	case 0:
+		runtime.Gosched()
+	case 1:
+		runtime.Gosched()
+		runtime.Gosched()
+	case 3:
+		time.Sleep(time.Duration(n>>8%50) * time.Microsecond)
+	}
+}
+
 func TestC19(t *testing.T) {
 	r := vf.Begin(t, "C19")
 	defer r.End()
@@ -69,7 +83,19 @@ func TestC19(t *testing.T) {
 	var stats c19Stats
 	var seq atomic.Uint64
 	rounds := r.Pick(24, 400)
-	for i := 0; i < rounds; i++ {
+	// The monitors synchronise: the pool tracker takes one mutex at every acquire and release, the jitter hook bumps one
+	// atomic counter at every perturbation point, and to the race detector each of these is a happens-before edge between
+	// the library's goroutines that the library itself does not have (a release by the write loop followed by an acquire
+	// in Close orders everything the write loop did before). So the odd rounds are "bare": no pool tracker, and a jitter
+	// hook without shared state. They run after the tracked ones, the tracker is not installed again.
+	var order []int
+	for i := 0; i < rounds; i += 2 {
+		order = append(order, i)
+	}
+	for i := 1; i < rounds; i += 2 {
+		order = append(order, i)
+	}
+	for _, i := range order {
 		id := fmt.Sprintf("z%d", i)
 		if !r.Want(i, id) {
 			continue
@@ -78,7 +104,14 @@ func TestC19(t *testing.T) {
 		rng := r.Rand(id)
 		var trace []byte
 		var tmu sync.Mutex
-		http2.VerifSetPointHook(c19Jitter(&stats, &seq, &trace, &tmu))
+		bare := i%2 == 1
+		if bare {
+			pooltrack.Uninstall()
+			http2.VerifSetPointHook(c19BareJitter)
+			r.Inc("bare_rounds(no monitor synchronisation)", 1)
+		} else {
+			http2.VerifSetPointHook(c19Jitter(&stats, &seq, &trace, &tmu))
+		}
 		var wg sync.WaitGroup
 		var fails sync.Map
 		nconn := 4 + rng.Intn(6)
@@ -122,6 +155,9 @@ func TestC19(t *testing.T) {
 		h := vf.Hash(string(trace))
 		passed := len(trace) / 2
 		tmu.Unlock()
+		if bare {
+			h = vf.Hash("bare/" + id)
+		}
 		r.Eval(h, true)
 		if r.WantSample() {
 			r.Sample(map[string]any{"round": id, "connections": nconn, "perturbation_points_passed": passed})
@@ -478,6 +514,11 @@ func c19Client(rng *rand.Rand, id string, stats *c19Stats) string {
 		}()
 	}
 	wg.Wait()
+	if rng.Intn(2) == 0 {
+		// an idle tail: nothing but the connection's own pings is written for a few intervals, so that the last thing the
+		// write loop did before Close is a ping
+		time.Sleep(time.Duration(4+rng.Intn(8)) * time.Millisecond)
+	}
 	c.Close()
 	peer.Close()
 	select {
